@@ -706,7 +706,9 @@ impl W {
             let seg = self.pipes[p].segs.front().unwrap();
             let to_nul = seg.bytes.iter().position(|b| *b == 0).unwrap_or(seg_len);
             if to_nul > 600 {
-                1 + self.tape.draw(to_nul - 300)
+                // (tape value 0 = the longest stride: a tape that has run out jumps straight to the
+                // last 300 bytes instead of crawling through the payload)
+                (to_nul - 300) - self.tape.draw(to_nul - 300)
             } else {
                 n
             }
